@@ -182,6 +182,84 @@ pub fn tar_member_meta(entries: Vec<(usize, EntryRes)>, subpath: &FPath, path: F
     NewResult::Cont
 }
 
+// =====================================================================================================
+// NTF-COPY — a compressed .evtx / .journal is decompressed into a temporary file before it is parsed (decompress_to_ntf): the copy
+// loops of the bzip2 and LZ4 branches write every byte the decoder yields, in order, until the decoder reports the end of the data
+// (a read of 0 bytes) -- a read that returns fewer bytes than the buffer holds is not the end (C10: "a compressed .evtx prints the
+// same as the plain file")
+pub struct Stream { pub ghost data: Seq<u8>, pub ghost pos: nat }
+pub struct Sink { pub ghost written: Seq<u8> }
+pub const BUF_SZ: usize = 65536;   // size of the copy buffer (decompress_to_ntf declares the same constant locally; the contract does not depend on it)
+/// stand-in (R9) for `<decoder>.read(&mut buf)`: std::io::Read -- Ok(n): n <= buf.len(), the next n bytes; Ok(0) for a non-empty
+/// buffer only at the end of the data
+#[verifier::external_body]
+pub fn verif_stream_read<const N: usize>(st: &mut Stream, buf: &mut [u8; N]) -> (r: core::result::Result<usize, IoErr>)
+    requires old(st).pos <= old(st).data.len()
+    ensures
+        final(st).data == old(st).data,
+        r is Ok ==> r->Ok_0 <= N && final(st).pos == old(st).pos + r->Ok_0 && final(st).pos <= old(st).data.len()
+            && (forall|i: int| 0 <= i < r->Ok_0 ==> #[trigger] final(buf)@[i] == old(st).data[old(st).pos + i])
+            && (r->Ok_0 == 0 && N > 0 ==> old(st).pos == old(st).data.len()),
+        r is Err ==> final(st).pos == old(st).pos,
+{ unimplemented!() }
+/// stand-in (R9) for `bufwriter.write_all(&buf[..n])`
+#[verifier::external_body]
+pub fn verif_write_all<const N: usize>(sink: &mut Sink, buf: &[u8; N], n: usize) -> (r: core::result::Result<(), IoErr>)
+    requires n <= N
+    ensures r is Ok ==> final(sink).written == old(sink).written + buf@.subrange(0, n as int), r is Err ==> final(sink).written == old(sink).written
+{ unimplemented!() }
+pub fn verif_count_add(c: &mut FileSz, n: FileSz) { if *c <= u64::MAX - n { *c = *c + n; } }
+
+#[verifier::exec_allows_no_decreases_clause]
+pub fn ntf_copy_bz2(st: &mut Stream, sink: &mut Sink, buf0: [u8; BUF_SZ]) -> (r: DtnResult)
+    requires old(st).pos <= old(st).data.len()
+    ensures r is OkNone ==> final(sink).written == old(sink).written + old(st).data.subrange(old(st).pos as int, old(st).data.len() as int)
+{
+    let mut buf = buf0;
+    let ghost d = st.data; let ghost p0 = st.pos; let ghost w0 = sink.written;
+//@cut slice path=src/readers/filedecompressor.rs fn=decompress_to_ntf anchor="let mut _filesz_uncompressed: FileSz = 0;" k=1 take=range end_anchor="loop {" label=NTF-COPY-BZ2
+//@replace "bz2_decoder.read(&mut buf)" "verif_stream_read(st, &mut buf)"
+//@replace "bufwriter.write_all(&buf[..bytes_read])" "verif_write_all(sink, &buf, bytes_read)"
+//@replace "_filesz_uncompressed += bytes_read as FileSz;" "verif_count_add(&mut _filesz_uncompressed, bytes_read as FileSz);"
+//@replace "_loop_count += 1;" "if _loop_count < usize::MAX { _loop_count += 1; }"
+//@loop 1
+                invariant_except_break
+                    true,
+                invariant
+                    st.data == d, d == old(st).data, p0 == old(st).pos, w0 == old(sink).written, p0 <= st.pos <= d.len(),
+                    sink.written == w0 + d.subrange(p0 as int, st.pos as int),
+                ensures
+                    st.pos == d.len(),
+//@end
+    proof { assert(d.subrange(p0 as int, st.pos as int) =~= d.subrange(p0 as int, d.len() as int)); }
+    DtnResult::OkNone
+}
+
+#[verifier::exec_allows_no_decreases_clause]
+pub fn ntf_copy_lz4(st: &mut Stream, sink: &mut Sink, buf0: [u8; BUF_SZ]) -> (r: DtnResult)
+    requires old(st).pos <= old(st).data.len()
+    ensures r is OkNone ==> final(sink).written == old(sink).written + old(st).data.subrange(old(st).pos as int, old(st).data.len() as int)
+{
+    let mut buf = buf0;
+    let ghost d = st.data; let ghost p0 = st.pos; let ghost w0 = sink.written;
+//@cut slice path=src/readers/filedecompressor.rs fn=decompress_to_ntf anchor="let mut _filesz_uncompressed: FileSz = 0;" k=2 take=range end_anchor="loop {" label=NTF-COPY-LZ4
+//@replace "lz4_decoder.read(&mut buf)" "verif_stream_read(st, &mut buf)"
+//@replace "bufwriter.write_all(&buf[..bytes_read])" "verif_write_all(sink, &buf, bytes_read)"
+//@replace "_filesz_uncompressed += bytes_read as FileSz;" "verif_count_add(&mut _filesz_uncompressed, bytes_read as FileSz);"
+//@replace "_loop_count += 1;" "if _loop_count < usize::MAX { _loop_count += 1; }"
+//@loop 1
+                invariant_except_break
+                    true,
+                invariant
+                    st.data == d, d == old(st).data, p0 == old(st).pos, w0 == old(sink).written, p0 <= st.pos <= d.len(),
+                    sink.written == w0 + d.subrange(p0 as int, st.pos as int),
+                ensures
+                    st.pos == d.len(),
+//@end
+    proof { assert(d.subrange(p0 as int, st.pos as int) =~= d.subrange(p0 as int, d.len() as int)); }
+    DtnResult::OkNone
+}
+
 /// vacuity guard: must NOT verify
 pub proof fn tar__canary(es: Seq<(usize, EntryRes)>, w: Seq<char>)
     requires es.len() == 2, wanted(es, 1, w)
